@@ -22,8 +22,14 @@ def main():
     t0 = time.time()
     status = "ok"
     err = None
+    cover = None
     try:
         mod = importlib.import_module(f"vf.props.{prop.lower()}")
+        if shard.get("replay") is None:
+            from vf.mon.cover import Coverage
+
+            cover = Coverage(prop)
+            cover.start()
         if shard.get("replay") is not None:
             mod.replay(shard["replay"], ctx)
         else:
@@ -32,6 +38,12 @@ def main():
         status = "harness-error"
         err = "".join(traceback.format_exception(type(e), e, e.__traceback__))[-6000:]
     res = ctx.result()
+    if cover is not None:
+        try:
+            cover.stop()
+            res["cover"] = cover.result()
+        except Exception as e:  # noqa: BLE001
+            res["cover"] = {"functions": {}, "errors": [f"cover: {e}"]}
     res["status"] = status
     res["error"] = err
     res["wall_s"] = time.time() - t0
